@@ -233,6 +233,12 @@ class OrderTaint:
             if isinstance(n, ast.Assign):
                 k = taint(n.value)
                 for t in n.targets:
+                    if isinstance(t, (ast.Tuple, ast.List)) and isinstance(n.value, (ast.Tuple, ast.List)) and \
+                            len(t.elts) == len(n.value.elts) and not any(isinstance(x, ast.Starred) for x in t.elts + n.value.elts):
+                        # unpacking a display: positions are fixed, every target gets the kind of its own element
+                        for te, ve in zip(t.elts, n.value.elts):
+                            self._bind(te, taint(ve), local_set, fn, env)
+                        continue
                     self._bind(t, k, local_set, fn, env)
             elif isinstance(n, ast.AnnAssign) and n.value is not None:
                 self._bind(n.target, taint(n.value), local_set, fn, env)
@@ -468,7 +474,10 @@ class OrderTaint:
             elif isinstance(p, ast.Starred):
                 sink(n, k, 'star-unpacked')
             elif isinstance(p, ast.Assign) and p.value is n:
-                if any(isinstance(t, (ast.Tuple, ast.List)) for t in p.targets):
+                if isinstance(n, (ast.Tuple, ast.List)) and all(
+                        isinstance(t, (ast.Tuple, ast.List)) and len(t.elts) == len(n.elts) for t in p.targets):
+                    ok(n, k, 'display unpacked element by element (positions are fixed)')
+                elif any(isinstance(t, (ast.Tuple, ast.List)) for t in p.targets):
                     sink(n, k, 'unpacked by position')
                 else:
                     ok(n, k, 'assigned (target is tracked)')
@@ -489,9 +498,17 @@ class OrderTaint:
     def _loop_sinks(self, fn, loop: ast.For, k, sink, ok):
         """A `for` over an order-tainted iterable: first-match exits are order dependent."""
         bad = False
+        def owner_loop(node):
+            p_ = self.prog.parent(node)
+            while p_ is not None and not isinstance(p_, (ast.For, ast.AsyncFor, ast.While)):
+                p_ = self.prog.parent(p_)
+            return p_
+
         for s in ast.walk(loop):
             if s is loop:
                 continue
+            if isinstance(s, ast.Break) and owner_loop(s) is not loop:
+                continue            # leaves an inner loop, not the one over the unordered value
             if isinstance(s, ast.Break):
                 sink(loop.iter, k, 'loop over an unordered value leaves at the first match (break)')
                 bad = True
